@@ -288,7 +288,8 @@ CHECKS["C16"] = dict(
                 "NewConsoleWriter with an option; for events without a standard level (Log(), Write, custom levels) the level part is excluded - its "
                 "rendering is not specified - and everything else is still compared."),
     technique="runtime monitoring: independent reference renderer compared with ConsoleWriter output over seeded events x configurations",
-    stages=lambda tier: [dict(variant="vh", cmd="c16", shards=16, timeout=3000, env={"TZ": "UTC"})],
+    stages=lambda tier: [dict(variant="vh", cmd="c16", shards=16, timeout=3000, env={"TZ": "UTC"}),
+                         dict(variant="vh", cmd="c16-runes", shards=8, timeout=3000, env={"TZ": "UTC"})],
     rule=("one case = one seeded program's events x one random console configuration, each event rendered twice; non-trivial = at least one rendering "
           "was compared; distinct by hash of (configuration, console bytes)"),
     assumptions=["field names are drawn from [A-Za-z0-9_.-]* (incl. the empty name) plus two multi-byte letters and never equal a part name",
@@ -502,7 +503,8 @@ _ADD = {
            "first, the backlog has been delivered or reported); one run in sixteen writes nothing at all.",
     "C13": " Events also start with Logger.Panic() (recovered) and WithLevel(Fatal/Panic)."
            " A quarter of the Logger runs derive their loggers (Sample, With, Output) while sampling is globally disabled and re-enable it before logging.",
-    "C16": " One program in eight has events with dozens of fields (FieldsOrder over more than 16 names)." " Before a fifth of the renderings another ConsoleWriter edits, in place, the PartsOrder its constructor gave it.",
+    "C16": " Every Unicode code point is rendered inside a field name, a field value, a slice, a dictionary, an error text and the message "
+           "(1 114 112 events from the real logger, compared with the reference renderer)." " One program in eight has events with dozens of fields (FieldsOrder over more than 16 names)." " Before a fifth of the renderings another ConsoleWriter edits, in place, the PartsOrder its constructor gave it.",
     "C19": " Helper chains 5 to 1000 frames deep report their caller with one CallerSkipFrame(N+2) or N+2 calls of CallerSkipFrame(1)."
            " Every third statement runs after a pool history: events discarded (by the caller or a hook), filtered, panicking or written "
            "elsewhere, with skip counts of their own.",
@@ -521,3 +523,4 @@ CHECKS["C02"]["require"]["code_points_logged"] = 1114112
 CHECKS["C08"].setdefault("require", {})["code_points_logged"] = 1114112
 CHECKS["C18"].setdefault("require", {})["rounds_with_a_logger_in_the_base_context"] = 20
 CHECKS["C09"]["require"]["code_points_logged"] = 1114112
+CHECKS["C16"].setdefault("require", {})["code_points_rendered"] = 1114112
